@@ -10,13 +10,14 @@ ROOT="$(cd "$(dirname "$0")" && pwd)"
 TAG="$1"; shift
 [ -n "$TAG" ] || { echo "usage: $0 <tag> <pattern>..." >&2; exit 2; }
 S="/tmp/st-$TAG"
+R="$S/repo_$TAG"   # unique basename: git names worktrees after it
 rm -rf "$S"; mkdir -p "$S" || exit 2
-git -C /repo worktree add -q --detach "$S/repo" HEAD || exit 2
+git -C /repo worktree add -q --detach "$R" HEAD || exit 2
 mkdir -p "$S/verif"
 rsync -a --exclude target --exclude 'fuzz/artifacts' --exclude 'fuzz/corpus' --exclude .git --exclude replays/found "$ROOT/" "$S/verif/"
-sed -i "s#/repo/#$S/repo/#g" "$S/verif/harness/Cargo.toml" "$S/verif/check.sh"
+sed -i "s#/repo/#$R/#g" "$S/verif/harness/Cargo.toml" "$S/verif/check.sh"
 cp "$ROOT/harness/Cargo.lock" "$S/verif/harness/Cargo.lock" 2>/dev/null
-export VERIF_REPO="$S/repo"
+export VERIF_REPO="$R"
 mkdir -p "$ROOT/target"
 res="$ROOT/target/scratch-results-$TAG.txt"; : > "$res"
 caught=0; missed=0
@@ -28,18 +29,18 @@ for PAT in "$@"; do
     prop="$(sed -n 's/^# property: //p' "$f" | head -1)"
     [ -n "$prop" ] || prop="$(python3 -c "import json,os; print(json.load(open(os.path.join(os.path.dirname('$f'),'meta.json')))['property'])" 2>/dev/null)"
     name="$(basename "$(dirname "$f")")/$(basename "$f")"
-    if ! git -C "$S/repo" apply "$f" 2>/dev/null; then echo "APPLY-FAILED $name" | tee -a "$res"; continue; fi
+    if ! git -C "$R" apply "$f" 2>/dev/null; then echo "APPLY-FAILED $name" | tee -a "$res"; continue; fi
     all=""
     for p in $prop; do
       out="$("$S/verif/check.sh" "$p" --tier quick 2>&1)"; r=$?
       sig="$(echo "$out" | grep -m1 'failure in' | sed 's/.*\[\(.*\)\].*/\1/' | cut -c1-90)"
       all="$all $p=$r[$sig]"
     done
-    git -C "$S/repo" checkout -- .
+    git -C "$R" checkout -- .
     if echo "$all" | grep -q "=1\["; then caught=$((caught+1)); echo "CAUGHT $name -$all" | tee -a "$res"; else missed=$((missed+1)); echo "MISSED $name -$all" | tee -a "$res"; fi
   done
 done
 echo "caught=$caught missed=$missed" | tee -a "$res"
-git -C /repo worktree remove --force "$S/repo"; git -C /repo worktree prune
+git -C /repo worktree remove --force "$R"; git -C /repo worktree prune
 rm -rf "$S"
 [ $missed -eq 0 ]
